@@ -38,6 +38,9 @@ var c18Items = func() []c18Item {
 	f(fOpWrite)
 	f(fResF)
 	f(fRightR)
+	// a set the caller wrote with a repeated element: whatever the original authorizer makes of it, the restored one must too
+	f(atom("n", rx.SetOf(rx.Int(7), rx.Int(7), rx.Int(9))))
+	p(deny(qe([]refdl.Atom{atom("n", vx)}, []rx.Op{{Kind: rx.OpValue, V: vx}, {Kind: rx.OpUnary, U: rx.Length}, {Kind: rx.OpValue, V: rx.Int(2)}, {Kind: rx.OpBinary, B: rx.GreaterThan}})))
 	r(rAllowed)
 	r(refdl.Rule{Head: atom("big", vx), Body: []refdl.Atom{atom("n", vx)}, Exprs: [][]rx.Op{binExpr(vx, rx.GreaterThan, rx.Int(1))}})
 	r(refdl.Rule{Head: atom("named", vx), Body: []refdl.Atom{atom("n", vx)}, Exprs: [][]rx.Op{binExpr(vx, rx.Prefix, rx.Str("fresh"))}})
